@@ -128,6 +128,41 @@ theorem decode_foreign_rejected (s : List Nat) (c : Nat) (hc : ¬ IsB64 c) (hm :
         · exact ih _ _ hmem
   exact key _ _ _ (List.mem_reverse.mpr hm)
 
+/-- C26.2 from the binary side, for an ARBITRARY target (not only one produced by `codeB64ToB2`): the `l > 0` leading
+sextets of `b` written as characters are exactly `l` characters, and converting them back to binary gives exactly the
+leading sextets of `b` (`nabSextets b l`): the two "front of a primitive" helpers are inverse on the bits they keep. -/
+theorem code_of_target (b : List Nat) (l : Nat) (hl : 0 < l) (hb : ∀ x ∈ b, x < 256) (hn : octets l ≤ b.length) :
+    ∃ s, codeB2ToB64 b l = .ok s ∧ s.length = l ∧ codeB64ToB2 s = nabSextets b l := by
+  set X := fromBytes (b.take (octets l)) with hX
+  have hXlt : X < 256 ^ octets l := by
+    have := fromBytes_lt (b.take (octets l)) (fun x hx => hb x (List.mem_of_mem_take hx))
+    rwa [List.length_take, Nat.min_eq_left hn] at this
+  have hpow : 256 ^ octets l = 64 ^ l * 2 ^ (2 * (l % 4)) := by
+    have h256 : (256 : Nat) = 2 ^ 8 := by norm_num
+    have h64 : (64 : Nat) = 2 ^ 6 := by norm_num
+    rw [h256, h64, ← Nat.pow_mul, ← Nat.pow_mul, ← Nat.pow_add, ← octets_bits l]
+  have hv : X >>> (2 * (l % 4)) < 64 ^ l := by
+    rw [Nat.shiftRight_eq_div_pow]
+    exact (Nat.div_lt_iff_lt_mul (Nat.pow_pos (by norm_num))).mpr (hpow ▸ hXlt)
+  have hdl : (digits64 (X >>> (2 * (l % 4)))).length ≤ l := by
+    by_cases h64 : 64 ≤ X >>> (2 * (l % 4))
+    · have h1 := digits_tight _ h64
+      have h2 : 64 ^ ((digits64 (X >>> (2 * (l % 4)))).length - 1) < 64 ^ l := Nat.lt_of_le_of_lt h1 hv
+      have := (Nat.pow_lt_pow_iff_right (by norm_num : 1 < 64)).mp h2
+      omega
+    · have : digits64 (X >>> (2 * (l % 4))) = [X >>> (2 * (l % 4))] := by
+        rw [digits64]; simp [Nat.lt_of_not_le h64]
+      rw [this]; simp; omega
+  obtain ⟨s, h1, h2, h3⟩ := int_roundtrip_partial (X >>> (2 * (l % 4))) l (by omega)
+  have hlen : s.length = l := by rw [h3]; omega
+  refine ⟨s, ?_, hlen, ?_⟩
+  · unfold codeB2ToB64
+    have : ¬ octets l > b.length := by omega
+    simp only [this, ↓reduceIte, ← hX, h1]
+  · unfold codeB64ToB2 nabSextets
+    have : ¬ octets l > b.length := by omega
+    simp only [h2, hlen, this, ↓reduceIte, ← hX]
+
 /-- C26.3: `nabSextets b l` returns exactly `octets l` bytes whose big-endian value is the value of the first
 `octets l` bytes of `b` with the trailing `8·octets l − 6·l` bits cleared and every other bit unchanged. -/
 theorem nab_keeps_leading_bits (b : List Nat) (l : Nat) (hb : ∀ x ∈ b, x < 256) (hn : octets l ≤ b.length) :
@@ -171,6 +206,7 @@ example : ([66, 67] : List Nat) ≠ [] ∧ ∀ c ∈ ([66, 67] : List Nat), IsB6
   · exact ⟨1, by decide⟩
   · exact ⟨2, by decide⟩
 example : (∀ x ∈ ([255, 255, 255] : List Nat), x < 256) ∧ octets 3 ≤ ([255, 255, 255] : List Nat).length := by decide
+example : 0 < 3 ∧ (∀ x ∈ ([226, 130, 172] : List Nat), x < 256) ∧ octets 3 ≤ ([226, 130, 172] : List Nat).length := by decide
 example : ¬ IsB64 61 := by
   intro ⟨d, h⟩
   have : idxOf 61 = .error .keyError := by decide
